@@ -12,11 +12,13 @@
    What is NOT modelled: binary64 rounding.  Every double operation is the exact
    rational operation; the correspondence run measures the difference.
    A double division by (double)0 (only reachable in _add when ++k wraps to 0)
-   yields inf/NaN in C, which Q cannot express: `add` returns None there.
+   yields inf/NaN in C, which Q cannot express: `stats_add` returns None there.
 
    Each rational operation is followed by Qred (value-preserving normalisation,
    Qred q == q) only to keep the extracted code fast; see qadd_eq etc. in
-   StatsQProofs.v.  Definitions only; proofs are in StatsQProofs.v. *)
+   StatsQProofs.v (qr_add a b == a + b, ...).  Names carry a stats_/qr_/sstore_
+   prefix so that the extracted OCaml names stay stable when other models are
+   extracted into the same file.  Definitions only; proofs are in StatsQProofs.v. *)
 From Coq Require Import NArith ZArith QArith Qreduction Qminmax List Bool.
 Import ListNotations.
 Local Open Scope Q_scope.
